@@ -77,7 +77,9 @@ func c17UniqueDB(r *rand.Rand, n int, platforms int) []vlib.Cmd {
 	// entries that stress the formatters: long multi-byte commands and categories (byte length and rune count
 	// far apart), very long ASCII ones, text with tabs and ANSI-looking brackets
 	wide := []string{"日本語のコマンド名はとても長いですがルーンの数は少ないです", "файловая-система-команда-для-поиска-и-замены-текста", "αρχείο-συμπίεσης-και-αποσυμπίεσης-δεδομένων-εδώ",
-		"emoji 😀😀😀😀😀😀😀😀😀😀😀😀😀😀😀😀😀😀 tool", strings.Repeat("averyveryverylongcommandname-", 4), "tab\there [0m not-an-escape"}
+		"emoji 😀😀😀😀😀😀😀😀😀😀😀😀😀😀😀😀😀😀 tool", strings.Repeat("averyveryverylongcommandname-", 4), "tab\there [0m not-an-escape",
+		// text that holds escape sequences as TEXT (commands that print or match them): a backslash followed by u0026, n, ", x1b
+		`printf '\u0026\u003c\u003e\n'`, `echo "a \"quoted\" word \\ and \u0022 </script> &amp; <b>"`, `grep -P '\x1b\[[0-9;]*m|\t|\\u[0-9a-f]{4}'`, `sed 's/\\/\\\\/g; s/&/\&amp;/g'`}
 	for i, w := range wide {
 		if len(cmds) == 0 {
 			break
@@ -110,6 +112,45 @@ func c17UniqueDB(r *rand.Rand, n int, platforms int) []vlib.Cmd {
 func engineCLISearch(ctx *Ctx) {
 	r := vlib.NewRand(ctx.Seed, ctx.Shard, "cli-search")
 	engineStart := time.Now()
+	// the names of the sub-commands, as the program's own help lists them: a query may begin with a word that is the beginning of
+	// one of them ("pip install", "hist of changes", "set up vpn") - typed without quotes it is still a query
+	var subPrefixes []string
+	{
+		hh := NewHome(filepath.Join(ctx.Scratch, "helpprobe"))
+		out := hh.Wtf(ctx.Wtf, nil, "--help").Stdout
+		var names []string
+		in := false
+		for _, l := range strings.Split(out, "\n") {
+			if strings.HasPrefix(l, "Available Commands") {
+				in = true
+				continue
+			}
+			if in {
+				f := strings.Fields(l)
+				if len(f) == 0 || !strings.HasPrefix(l, " ") {
+					break
+				}
+				names = append(names, f[0])
+			}
+		}
+		for _, n := range names {
+			for k := 1; k < len(n); k++ {
+				p, uniq := n[:k], true
+				for _, m := range names {
+					if m != n && strings.HasPrefix(m, p) {
+						uniq = false
+					}
+					if m == p {
+						uniq = false
+					}
+				}
+				if uniq {
+					subPrefixes = append(subPrefixes, p)
+				}
+			}
+		}
+		os.RemoveAll(filepath.Join(ctx.Scratch, "helpprobe"))
+	}
 	nHome := ctx.N(192, 3200)
 	for hI := 0; hI < nHome; hI++ {
 		base := filepath.Join(ctx.Scratch, fmt.Sprintf("cs%d", hI))
@@ -243,6 +284,21 @@ func engineCLISearch(ctx *Ctx) {
 					raw = "  " + strings.ToUpper(raw) + " "
 				}
 			}
+			wordByWord := false
+			if len(subPrefixes) > 0 && r.Intn(9) == 0 {
+				raw = subPrefixes[r.Intn(len(subPrefixes))] + " " + words[r.Intn(len(words))]
+				if r.Intn(2) == 0 {
+					raw += " " + words[r.Intn(len(words))]
+				}
+				if ok := !strings.ContainsAny(raw, "<>|&;$\x00") && !strings.HasPrefix(raw, "-"); ok {
+					wordByWord = true
+					for _, w := range strings.Fields(raw) {
+						if strings.HasPrefix(w, "-") {
+							wordByWord = false
+						}
+					}
+				}
+			}
 			limit := []int{-1, 0, 0, 1, 3, 5, 100, 101}[r.Intn(8)]
 			format := []string{"list", "list", "table", "json", "json", "JSON", "bogus"}[r.Intn(7)]
 			verbose := r.Intn(2) == 0
@@ -284,10 +340,17 @@ func engineCLISearch(ctx *Ctx) {
 			if noCross {
 				args = append(args, "--no-cross-platform")
 			}
-			if r.Intn(2) == 0 {
-				args = append([]string{"search"}, args...)
+			if wordByWord {
+				// typed without quotes and without a sub-command: the words come first, one argument each
+				args = append(strings.Fields(raw), args...)
+				raw = strings.Join(strings.Fields(raw), " ")
+				ctx.R.Path("queries-beginning-like-a-sub-command-typed-without-quotes", 1)
+			} else {
+				if r.Intn(2) == 0 {
+					args = append([]string{"search"}, args...)
+				}
+				args = append(args, "--", raw)
 			}
-			args = append(args, "--", raw)
 			env := append([]string(nil), homeEnv...)
 			if noColorEnv != "" {
 				env = append(env, noColorEnv)
